@@ -93,14 +93,15 @@ def grammar_files():
 
 
 def prepare_roots():
-    """Three manifest roots holding identical copies of the grammar files (relocation of the grammar file). The copies differ in
+    """Four manifest roots holding identical copies of the grammar files (relocation of the grammar file). The copies differ in
     file-system metadata only: root0 ordinary files; root1 read-only files with a modification time in 2001; root2 symbolic
-    links into a store directory whose files carry a modification time in 2033."""
+    links into a store directory whose files carry a modification time in 2033; root3 ordinary files under a much longer path."""
     good, bad = grammar_files()
     base = os.path.join(C.build_root(), "gensim-roots")
     roots = []
-    for k in range(3):
-        root = os.path.join(base, "root%d" % k)
+    for k in range(4):
+        # root3: same bytes again under a much longer directory path (the length of CARGO_MANIFEST_DIR must not matter)
+        root = os.path.join(base, "root%d" % k) if k < 3 else os.path.join(base, "root3-with-a-considerably-longer-directory-name-than-the-others", "nested", "a-bit-deeper-still")
         os.makedirs(os.path.join(root, "grammars"), exist_ok=True)
         for name, path in list(good.items()) + list(bad.items()):
             dst = os.path.join(root, "grammars", name + ".pest")
@@ -202,7 +203,7 @@ def gen_run(seed, goods, bads, texts, option_sets=None):
         for _ in range(1 + rng.below(12)):
             nm = rng.pick(names)
             env["well_known"][nm] = rng.pick(WELL_KNOWN_VARS[nm])
-    env["root"] = rng.below(3) if rng.chance(1, 2) else 0
+    env["root"] = rng.below(4) if rng.chance(1, 2) else 0
     env["cwd"] = rng.pick(["root0", "root1", "slash", "build"]) if rng.chance(1, 2) else "root0"
     if rng.chance(1, 2):
         env["read_short"] = rng.pick([1, 3, 7, 64, 1000])
